@@ -4,6 +4,7 @@ CONSTANTS
   Special <- MCSpecial
 SPECIFICATION Spec
 INVARIANT TypeOK
+INVARIANT Recalculated
 INVARIANT BroadcastCases
 INVARIANT FnEqualOrScalar
 INVARIANT ShapeExact
